@@ -12,7 +12,6 @@ import (
 	"net/netip"
 	"os"
 	"slices"
-	"sync"
 	"sync/atomic"
 	"time"
 )
@@ -49,24 +48,41 @@ func (c *UDPConn) ReadFromUDP(p []byte) (int, *net.UDPAddr, error) {
 
 var _ net.PacketConn = (*UDPConn)(nil)
 
-var (
-	mu       sync.Mutex
-	listenFn func(network string, laddr *net.UDPAddr) (PacketBackend, error)
-	permFn   func(site int, n int) []int
-	knobs    map[string]int
-)
+// The hook table is replaced as a whole, by the simulator, before a run starts any
+// goroutine, and only read afterwards. Reads are one atomic pointer load: the only
+// happens-before edge a seam adds is "after the simulator installed the hooks", so the
+// seams never order go-upf's goroutines with one another (which would hide data races
+// from the race detector). For the same reason the seams keep no counters.
+type hooks struct {
+	listen  func(network string, laddr *net.UDPAddr) (PacketBackend, error)
+	perm    func(site int, n int) []int
+	choose  func(site int, ready []int) int
+	resolve func(host string) (net.IP, error)
+	knobs   map[string]int
+}
+
+var cur atomic.Pointer[hooks]
+
+func get() *hooks {
+	if h := cur.Load(); h != nil {
+		return h
+	}
+	return &hooks{}
+}
+
+func set(f func(h *hooks)) {
+	h := *get()
+	f(&h)
+	cur.Store(&h)
+}
 
 // SetListen installs the socket factory (rule R2 routes net.ListenUDP here).
 func SetListen(f func(network string, laddr *net.UDPAddr) (PacketBackend, error)) {
-	mu.Lock()
-	listenFn = f
-	mu.Unlock()
+	set(func(h *hooks) { h.listen = f })
 }
 
 func ListenUDP(network string, laddr *net.UDPAddr) (*UDPConn, error) {
-	mu.Lock()
-	f := listenFn
-	mu.Unlock()
+	f := get().listen
 	if f == nil {
 		return nil, errors.New("simhook: no listener installed")
 	}
@@ -79,24 +95,15 @@ func ListenUDP(network string, laddr *net.UDPAddr) (*UDPConn, error) {
 
 // ---- name resolution (rule R8) -----------------------------------------------------
 
-var (
-	resolveFn func(host string) (net.IP, error)
-	Resolves  atomic.Int64
-)
 
 // SetResolve installs the simulator's resolver. Host names never reach a real resolver:
 // with none installed every name is "no such host".
 func SetResolve(f func(host string) (net.IP, error)) {
-	mu.Lock()
-	resolveFn = f
-	mu.Unlock()
+	set(func(h *hooks) { h.resolve = f })
 }
 
 func lookup(host string) (net.IP, error) {
-	Resolves.Add(1)
-	mu.Lock()
-	f := resolveFn
-	mu.Unlock()
+	f := get().resolve
 	if f == nil {
 		return nil, &net.DNSError{Err: "no such host", Name: host, IsNotFound: true}
 	}
@@ -146,12 +153,8 @@ func ResolveIPAddr(network, address string) (*net.IPAddr, error) {
 // SetPerm installs the function that orders map iteration. perm(site, n) must return a
 // permutation of 0..n-1; nil means "sorted key order".
 func SetPerm(f func(site int, n int) []int) {
-	mu.Lock()
-	permFn = f
-	mu.Unlock()
+	set(func(h *hooks) { h.perm = f })
 }
-
-var MapRanges atomic.Int64
 
 // Keys returns the keys of m in the order the simulator chose for this visit.
 func Keys[K cmp.Ordered, V any](m map[K]V, site int) []K {
@@ -160,13 +163,10 @@ func Keys[K cmp.Ordered, V any](m map[K]V, site int) []K {
 		ks = append(ks, k)
 	}
 	slices.Sort(ks)
-	MapRanges.Add(1)
 	if len(ks) < 2 {
 		return ks
 	}
-	mu.Lock()
-	f := permFn
-	mu.Unlock()
+	f := get().perm
 	if f == nil {
 		return ks
 	}
@@ -180,13 +180,9 @@ func Keys[K cmp.Ordered, V any](m map[K]V, site int) []K {
 
 // ---- select choice (rule R7) --------------------------------------------------------
 
-var chooseFn func(site int, ready []int) int
-
 // SetChoose installs the function that picks which ready case of a select runs.
 func SetChoose(f func(site int, ready []int) int) {
-	mu.Lock()
-	chooseFn = f
-	mu.Unlock()
+	set(func(h *hooks) { h.choose = f })
 }
 
 // Choose is given the queue lengths of the channels of a receive-only select. With fewer
@@ -202,9 +198,7 @@ func Choose(site int, lens ...int) int {
 	if len(ready) < 2 {
 		return -1
 	}
-	mu.Lock()
-	f := chooseFn
-	mu.Unlock()
+	f := get().choose
 	if f == nil {
 		return -1
 	}
@@ -215,17 +209,13 @@ func Choose(site int, lens ...int) int {
 
 // SetKnobs replaces the table of overridden constants (nil = shipped values).
 func SetKnobs(k map[string]int) {
-	mu.Lock()
-	knobs = k
-	mu.Unlock()
+	set(func(h *hooks) { h.knobs = k })
 }
 
 // Knob returns the override for name or def (the value in the shipped source).
 // go-upf reads knobs when it allocates queues, i.e. at server construction time.
 func Knob(name string, def int) int {
-	mu.Lock()
-	defer mu.Unlock()
-	if v, ok := knobs[name]; ok {
+	if v, ok := get().knobs[name]; ok {
 		return v
 	}
 	return def
